@@ -81,18 +81,29 @@ theorem poolInv_append (pool : List Tx) (tx : Tx) (h : PoolInv pool)
   intro a ha b hb e
   exact hc b hb (e ▸ ha)
 
-theorem poolAccepts_append (P : Params) (L : Ledger) (th : Nat) (pool : List Tx) (tx : Tx)
-    (h : PoolInv pool) (ha : poolAccepts P L th pool tx = true) : PoolInv (pool ++ [tx]) := by
-  unfold poolAccepts at ha
-  simp only [Bool.and_eq_true] at ha
-  obtain ⟨⟨⟨⟨_, _⟩, hsane⟩, _⟩, hconf⟩ := ha
-  unfold txSane at hsane
-  simp only [Bool.and_eq_true] at hsane
-  apply poolInv_append pool tx h
-  · exact hsane.1.2
-  · intro p hp hin
-    have := (List.all_eq_true.mp hconf) p hp
-    simp [hin] at this
+theorem poolInv_poolAdd (P : Params) (L : Ledger) (th : Nat) (pool : List Tx) (tx : Tx)
+    (h : PoolInv pool) : PoolInv (poolAdd P L th pool tx).1 := by
+  unfold poolAdd
+  have hr : PoolInv (poolReplace pool tx) := by
+    unfold poolReplace
+    split
+    · exact poolInv_filter _ _ h
+    · exact h
+  split
+  · next hpre =>
+    split
+    · next hconf =>
+      unfold poolPre at hpre
+      simp only [Bool.and_eq_true] at hpre
+      have hsane := hpre.1.2
+      unfold txSane at hsane
+      simp only [Bool.and_eq_true] at hsane
+      apply poolInv_append _ tx hr hsane.1.2
+      intro p hp hin
+      have := (List.all_eq_true.mp hconf) p hp
+      simp [hin] at this
+    · exact hr
+  · exact h
 
 theorem poolInv_onDisconnect (P : Params) (L : Ledger) (th : Nat) (pool : List Tx) (b : Block)
     (h : PoolInv pool) : PoolInv (poolOnDisconnect P L th pool b) := by
@@ -104,8 +115,8 @@ theorem poolInv_onDisconnect (P : Params) (L : Ledger) (th : Nat) (pool : List T
     simp only [List.foldl_cons]
     apply ih
     split
-    · next ha => exact poolAccepts_append P L th pool tx h ha
-    · exact poolInv_filter _ _ h
+    · exact poolInv_poolAdd P L th pool tx h
+    · exact poolInv_filter _ _ (poolInv_poolAdd P L th pool tx h)
 
 /-! every operation keeps `Good` -/
 
@@ -248,9 +259,7 @@ theorem good_processBlock (s : NState) (b : Block) (h : Good s) : Good (processB
 
 theorem good_submit (s : NState) (tx : Tx) (h : Good s) : Good (submit s tx).1 := by
   unfold submit
-  split
-  · next ha => exact ⟨h.stack, poolAccepts_append _ _ _ _ _ h.pool ha⟩
-  · exact h
+  exact ⟨h.stack, poolInv_poolAdd _ _ _ _ _ h.pool⟩
 
 /-! genesis and its ledger never change -/
 
@@ -371,10 +380,8 @@ theorem genesis_processBlock (s : NState) (b : Block) : (processBlock s b).1.gen
   (sameG_processBlock s b).1
 theorem gledger_processBlock (s : NState) (b : Block) : (processBlock s b).1.gledger = s.gledger :=
   (sameG_processBlock s b).2
-theorem genesis_submit (s : NState) (tx : Tx) : (submit s tx).1.genesis = s.genesis := by
-  unfold submit; split <;> rfl
-theorem gledger_submit (s : NState) (tx : Tx) : (submit s tx).1.gledger = s.gledger := by
-  unfold submit; split <;> rfl
+theorem genesis_submit (s : NState) (tx : Tx) : (submit s tx).1.genesis = s.genesis := rfl
+theorem gledger_submit (s : NState) (tx : Tx) : (submit s tx).1.gledger = s.gledger := rfl
 
 theorem good_init (P : Params) (g : Block) : Good (initState P g) := ⟨trivial, by simp [initState, PoolInv, poolIns]⟩
 
